@@ -55,6 +55,8 @@ type Observation struct {
 	Err          string   `json:"err"` // "nil", "fault:<prov>", "context.Canceled", "other:<text>", "none" (no error result)
 	Panic        string   `json:"panic,omitempty"`
 	Leaked       int      `json:"leaked"`       // goroutines still inside the generated file after return+grace (all gates open)
+	// RunningAtReturn: goroutines inside the generated file at the moment the injector returned
+	RunningAtReturn int `json:"running_at_return"`
 	BlockedMain  bool     `json:"blocked_main"` // injector did not return and its goroutine sits in the generated file
 	Log          []string `json:"log"`
 	LeakSample   string   `json:"leak_sample,omitempty"`
@@ -285,6 +287,7 @@ type vObs struct {
 	Err         string   ` + "`json:\"err\"`" + `
 	Panic       string   ` + "`json:\"panic,omitempty\"`" + `
 	Leaked      int      ` + "`json:\"leaked\"`" + `
+	RunningAtReturn int  ` + "`json:\"running_at_return\"`" + `
 	BlockedMain bool     ` + "`json:\"blocked_main\"`" + `
 	Log         []string ` + "`json:\"log\"`" + `
 	LeakSample  string   ` + "`json:\"leak_sample,omitempty\"`" + `
@@ -398,6 +401,8 @@ func TestVerifReplay(t *testing.T) {
 					obs.Err = "other:" + got.err.Error()
 				}
 			}
+			// join check: goroutines of the injector still running at the moment it returned
+			obs.RunningAtReturn, _ = verifrt.GoroutinesIn("_band.go")
 			// leak check: open every gate, give goroutines time to finish
 			verifrt.ReleaseAll()
 			time.Sleep(grace)
